@@ -401,10 +401,51 @@ class CtxMgrV(Obj):
 
 
 class PartialV(Obj):
-    __slots__ = ("fn", "args", "kwargs")
+    __slots__ = ("fn", "args", "kwargs", "uid")
 
     def __init__(self, fn, args, kwargs):
         self.fn, self.args, self.kwargs = fn, args, kwargs
+        self.uid = next(_ids)
+
+
+def callable_target(v):
+    """The repository function a callable value runs when called: itself, the function a functools.partial wraps, the __call__ of a
+    callable instance.  None for anything else (library callables, classes)."""
+    seen = 0
+    while seen < 6:
+        seen += 1
+        if isinstance(v, FuncV):
+            return v
+        if isinstance(v, BoundV):
+            v = v.func
+        elif isinstance(v, PartialV):
+            v = v.fn
+        elif isinstance(v, InstV) and isinstance(v.cls, ClassV):
+            c = None
+            for k in v.cls.mro:
+                if isinstance(k, ClassV) and "__call__" in k.ns:
+                    c = k.ns["__call__"]
+                    break
+            if c is None:
+                return None
+            v = c
+        else:
+            return None
+    return None
+
+
+def callable_ref(v) -> str:
+    t = callable_target(v)
+    if t is None:
+        return repr(v)
+    if isinstance(v, PartialV):
+        return t.ref  # the wrapped function names the code that runs
+    return t.ref
+
+
+def callable_line(v) -> int:
+    t = callable_target(v)
+    return getattr(getattr(t, "node", None), "lineno", 0) if t is not None else 0
 
 
 # ------------------------------------------------------------------------------ symbols
